@@ -261,7 +261,26 @@ def run_real(backend, ops):
   study = svc.create_study(sv)
   sname = study.name
   outs = []
-  for o in ops:
+  # NEIGHBOUR studies on the same service (same owner with a name extending the study's, and another owner with the
+  # same name), each with metadata and a trial of their own, written before and between the history's operations:
+  # nothing written to one study may show up in, or disappear from, another
+  nbs = [svc.create_study(sv, 'o', 's2').name, svc.create_study(sv, 'p', 's').name]
+  nb_md = [['', 'nb', 'neighbour'], [':user', 'k', 'nb-k'], [':algo', 'only-nb', '1']]
+
+  def touch_neighbours():
+    for nb in nbs:
+      rq = vsp.UpdateMetadataRequest(name=nb)
+      for e in nb_md:
+        rq.delta.add().metadatum.CopyFrom(svc.kv_list([e])[0])
+      sv.UpdateMetadata(rq)
+  for nb in nbs:
+    t0 = study_pb2.Trial(state=study_pb2.Trial.State.SUCCEEDED)
+    t0.metadata.extend(svc.kv_list([['', 'nbt', 'x']]))
+    sv.CreateTrial(vsp.CreateTrialRequest(parent=nb, trial=t0))
+  touch_neighbours()
+  for oi, o in enumerate(ops):
+    if oi % 3 == 2:
+      touch_neighbours()
     try:
       if o['op'] == 'addTrial':
         t = study_pb2.Trial(state=study_pb2.Trial.State.SUCCEEDED)   # not REQUESTED: keeps the pool empty
@@ -291,6 +310,11 @@ def run_real(backend, ops):
   trials = sv.ListTrials(vsp.ListTrialsRequest(parent=sname)).trials
   store = {'study': svc.md_tuples(st.study_spec),
            'trials': [{'id': int(t.id), 'md': svc.md_tuples(t)} for t in trials]}
+  for nb in nbs:
+    got = (sorted(svc.md_tuples(sv.GetStudy(vsp.GetStudyRequest(name=nb)).study_spec)),
+           [[int(t.id), svc.md_tuples(t)] for t in sv.ListTrials(vsp.ListTrialsRequest(parent=nb)).trials])
+    if got != (sorted(nb_md), [[1, [['', 'nbt', 'x']]]]):
+      store.setdefault('neighbour_changed', []).append([nb, got])
   return outs, store
 
 
@@ -350,6 +374,11 @@ def store_stage(c):
       c.traces += 1
       mv, mids = view_of(m['store'])
       rv, rids = view_of(store)
+      if store.get('neighbour_changed'):
+        c.prop_fail('neighbour-study-metadata-changed:' + be,
+                    'a history on study owners/o/studies/s changed what neighbour studies store (backend %s): %s' % (be, json.dumps(store['neighbour_changed'])[:300]),
+                    {'backend': be, 'ops': h, 'neighbour_changed': store['neighbour_changed']})
+        continue
       if outs == m['outs'] and rv == mv and rids == mids:
         if store != m['store']:
           c.tie_break('stored metadata lists (%s)' % be, {'ops': h}, store, m['store'])
